@@ -39,6 +39,10 @@ theorem tie_stringLadder : Generated.C17.stringLadder = stringLadder := by decid
 theorem tie_stringDefault : Generated.C17.stringDefault = (oneSecond, 's') := by decide
 theorem tie_suffixUnits : Generated.C17.suffixUnits = suffixUnits := by decide
 
+theorem tie_planPayloads : Generated.C17.planPayloads = planPayloadTable := by decide
+theorem tie_planCalls : Generated.C17.planCalls = planCallTable := by decide
+theorem tie_leafUnmarshals : Generated.C17.leafUnmarshals = leafUnmarshalTable := by decide
+
 /-! ## The model uses exactly the tabled vocabulary -/
 
 /-- every node is written under the tag its `Marshal` case uses, and `Unmarshal` has a case for it -/
@@ -408,6 +412,62 @@ theorem unmarshalQuery_empty : unmarshalQuery (.obj []) = .ok zeroQuery := by
   simp [unmarshalQuery, structFields, getBool, getStr, getInt, getRawList, getStruct, getInterval,
     getStrList, getRaw, arrElems, lookup, bind, Except.bind, pure, Except.pure, unmarshalOpt, unmarshalAll,
     zeroQuery]
+
+/-! ## "... so a leaf node executes the statement the root planned"
+
+`payloadOf` is the modelled serialisation step of the plan stages (tied to the source by
+`tie_planPayloads` / `tie_planCalls`: the payload is `MarshalJSON()` of the statement the planning
+node keeps, nothing in between), `leafStatement` what the receiving processors do with
+`req.Payload` (`tie_leafUnmarshals`). The real plan stages are also RUN by the harness and their
+payloads fed to the leaf-side decode (`leaf-statement-differs` oracle). -/
+
+/-- what the leaf executes, for every statement the root may hold -/
+theorem leaf_executes_planned_exact (q : Query) :
+    leafStatement (payloadOf q) = if q.wellFormed then .ok q.wireImage else .error .syntax :=
+  query_roundtrip_exact q
+
+/-- the leaf executes the statement the root planned (guards as in `query_roundtrip_partial`;
+after `calcTimeRangeAndInterval` both intervals are products of configured whole-second
+intervals, so the interval guards hold for planned statements) -/
+theorem leaf_executes_planned (q : Query) (hf : q.wellFormed = true)
+    (hi : (1000 : Int) ∣ q.interval) (hs : (1000 : Int) ∣ q.storageInterval) :
+    leafStatement (payloadOf q) = .ok q :=
+  query_roundtrip_partial q hf hi hs
+
+/-- in particular the grouping keys arrive in the root's order (the root labels result series
+by its own `GroupBy` order) -/
+theorem leaf_groupBy_order (q q' : Query) (h : leafStatement (payloadOf q) = .ok q') :
+    q'.groupBy = q.groupBy ∧ q'.selectItems = q.selectItems ∧ q'.orderByItems = q.orderByItems ∧
+    q'.limit = q.limit := by
+  rw [leaf_executes_planned_exact] at h
+  by_cases hf : q.wellFormed = true
+  · simp only [hf, if_true] at h
+    injection h with h
+    subst h
+    simp [Query.wireImage]
+  · simp [hf] at h
+
+theorem leaf_executes_planned_metadata (m : Metadata) (hk : m.kind < 256)
+    (h : optWellFormed m.condition = true) : leafMetadata (metaPayloadOf m) = .ok m :=
+  metadata_roundtrip_partial m hk h
+
+/-- through the bytes of the task request -/
+theorem wire_leaf_executes_planned (C : TextCodec) (q : Query) (hf : q.wellFormed = true)
+    (hi : (1000 : Int) ∣ q.interval) (hs : (1000 : Int) ∣ q.storageInterval) :
+    (C.parse (C.encode (payloadOf q))).bind leafStatement = .ok q :=
+  wire_query_roundtrip_partial C q hf hi hs
+
+/-- a payload built from a statement with re-ordered grouping keys is NOT what the root holds
+(the shape of a "canonicalising" serialisation step) -/
+example : leafStatement (payloadOf { zeroQuery with groupBy := ["app", "host"] })
+    ≠ .ok { zeroQuery with groupBy := ["host", "app"] } := by
+  rw [leaf_executes_planned_exact]
+  have : Query.wellFormed { zeroQuery with groupBy := ["app", "host"] } = true := by rfl
+  rw [this]
+  intro h
+  injection h with h
+  have := congrArg Query.groupBy h
+  simp [Query.wireImage] at this
 
 /-! ## Non-vacuity -/
 
